@@ -437,7 +437,20 @@ def one_view(signac, _make_path_function, root, pdir, live, step, desc, si):
     jrecs = []
     for job in jobs:
         sp = job.statepoint()
-        items = [k for k in sp.keys()] + [v for v in sp.values() if isinstance(v, str)]
+        items = []
+
+        def flat(d, key=None):   # dotted keys and str leaves at every nesting level
+            if isinstance(d, dict):
+                if d:
+                    for k in d:
+                        flat(d[k], k if key is None else key + "." + k)
+                elif key is not None:
+                    items.append(key)
+            else:
+                items.append(key)
+                if isinstance(d, str):
+                    items.append(d)
+        flat(sp)
         if pf is None:
             r = ("Err", "EOther")
         else:
